@@ -915,6 +915,12 @@ pub fn c07_configs(ctx: &mut Ctx) {
             big.push((recs[..nrec].to_vec(), 8));
         }
     }
+    // records beyond 100 000 bases (a counter that treats long records in blocks), short ones around them
+    if !ctx.monitor() {
+        big.push((vec![b"ACGTACGTACGTACGTTT".to_vec(), crate::iters::long_input(100_016, 31), b"TTTTTTTTTTTTTTTTTTTTTTT".to_vec()], 15));
+        big.push((vec![crate::iters::long_input(250_017, 32), b"ACGT".to_vec()], 21));
+        big.push((vec![fill(b"A", 300_000)], 11));
+    }
     big.push((crate::vecs::repeating_records(), 4));
     big.push((crate::vecs::repeating_records(), 10));
     big.push(((0..3000usize).map(|i| long_bases(2 + i % 11, i)).collect(), 3));
@@ -1328,6 +1334,24 @@ pub fn c08(ctx: &mut Ctx) {
                     c08_one(ctx, s, k, &table, bs, bc);
                     n += 1;
                 }
+            }
+        }
+    }
+    // long records without any window (all ambiguous, or clean stretches shorter than k only) and at round lengths
+    if !ctx.monitor() {
+        let mut specials: Vec<Vec<u8>> = vec![vec![b'N'; 99_999], vec![b'N'; 100_000], vec![b'N'; 100_001], vec![b'N'; 1_000_001]];
+        let mut mostly = vec![b'N'; 120_000];
+        mostly[60_000] = b'A';
+        mostly[60_001] = b'C';
+        specials.push(mostly);
+        for len in [99_999usize, 100_000, 100_001, 1_000_000] {
+            specials.push(crate::iters::long_input(len, len as u64));
+        }
+        for s in &specials {
+            if sh.mine() {
+                let table = synthetic_table(3, 2, 5);
+                c08_one(ctx, s, 3, &table, 2, 5);
+                n += 1;
             }
         }
     }
